@@ -3,6 +3,7 @@ package e1front
 import (
 	"bytes"
 	"context"
+	"errors"
 	"fmt"
 	"runtime"
 	"strings"
@@ -34,6 +35,9 @@ type CtxPlan struct {
 	EndUs        int    `json:"end_us,omitempty"`
 	EndKind      string `json:"end_kind,omitempty"` // cancel | timeout
 	InRead       string `json:"in_read"`            // none | cancel | cancel-gosched (inside the transport's last Read)
+	// NoDeadlines (scenarios in which the hello arrives): the transport's
+	// Set*Deadline calls fail with ErrUnsupported and have no effect.
+	NoDeadlines bool `json:"no_deadlines,omitempty"`
 	// HRRLater: after the return (and the end of the context) the backend
 	// answers with a HelloRetryRequest before the later I/O.
 	HRRLater bool   `json:"hrr_later,omitempty"`
@@ -168,6 +172,10 @@ func executeCtx(t *testing.T, prop string, seed uint64, p *CtxPlan) *core.Result
 			}
 
 			ctx, cancel := context.WithCancel(context.Background())
+			if p.NoDeadlines {
+				fc.DeadlineErr = errors.ErrUnsupported
+				res.Probe("transport_without_deadlines")
+			}
 			cc.Write(rec)
 			if p.Buffered || p.After == "timeout-after" {
 				// let the whole hello reach the front's receive buffer first
@@ -395,6 +403,7 @@ func genC10(seed uint64, idx int) *Plan {
 	c.Frags = 1 + r.IntN(6)
 	c.LatUs = []int{0, 10, 1000, 50000}[r.IntN(4)]
 	c.HRRLater = (idx/32)%2 == 1
+	c.NoDeadlines = (idx/64)%2 == 1 && (idx/4)%8 < 6
 	// the action grid
 	switch (idx / 4) % 8 {
 	case 0:
